@@ -619,6 +619,21 @@ fn zero_copy(o: &Obs, input: &[u8]) -> Option<String> {
     if o.flags & F_OUTSIDE != 0 {
         return Some("a non-empty slice lies outside the input buffer".into());
     }
+    if let (St::Complete(_), Some(_), true) = (o.st, o.code, o.reason.some && !o.reason.outside && o.reason.len() > 0) {
+        // a response: the reason lies behind the status code and its delimiter, it never covers
+        // the code's own bytes
+        let mut i = 0;
+        while i < input.len() && (input[i] == b'\r' || input[i] == b'\n') {
+            i += 1;
+        }
+        i += 8;
+        while i < input.len() && input[i] == b' ' {
+            i += 1;
+        }
+        if (o.reason.s as usize) < i + 4 {
+            return Some("the reason slice begins inside or directly at the status code".into());
+        }
+    }
     if let St::Complete(n) = o.st {
         // a header's name is followed by its value: the colon lies between them
         for i in 0..(o.nh as usize).min(MAXH) {
